@@ -461,3 +461,42 @@ class C20(core.Property):
 
 
 PROPERTY = C20
+
+
+# ---------------------------------------------------------------------------------------------
+# Second tie for class Progress (appended; harness/gen_ast.py, coq/Base/PyMini.v, Proofs/AstProgressEquiv.v):
+# the SOURCE TEXT of Progress._check_token_registered / _register_token / create (+ its nested on_created,
+# lambda-lifted) / create_async (split at its await) / begin / report / end is translated on every run by a
+# fail-closed AST translator into a deep embedding in which calls on the protocol object and on the user
+# callback are RECORDED, and the kernel re-checks that the methods do to Progress.tokens exactly what
+# Model/Progress.v says (registered, register_token), raise when it says so and make exactly the recorded
+# calls that the model's send_request / notify_progress / run_callbacks stand for.  Imported late
+# ("Module::theorem") so that a broken translator tie does not hide the other obligations.
+import sys as _sys
+_sys.path.insert(0, os.path.dirname(os.path.abspath(__file__)))
+import gen_c20 as _gen_c20
+
+C20.obligations = list(C20.obligations) + ["Proofs.AstProgressEquiv::" + n for n in (
+    "ast_progress_equiv", "ast_progress_model_link", "ast_progress_example")]
+C20.coq_targets = list(C20.coq_targets) + ["Proofs/AstProgressEquiv.vo"]
+C20.trusted_base = list(C20.trusted_base) + [
+    "translator tie: harness/gen_ast.py (Python ast -> PyMini, fail-closed) and the PyMini semantics "
+    "coq/Base/PyMini.v (hand-written meaning of the Python subset: dict membership / item assignment / "
+    "setdefault over an association list, recorded calls, lambda-lifted nested def, coroutine split at its await)"]
+_prev_regenerate = getattr(C20, "regenerate", None)
+
+
+def _regenerate(self, chk):
+    try:
+        if _prev_regenerate is not None:
+            _prev_regenerate(self, chk)
+    finally:
+        core.coq_make(["Props/C20.vo", "Extract/ExtractC20.vo"])     # the differential side first
+        with core._Lock("coq"):                                      # coq/Gen is shared
+            try:
+                _gen_c20.main()
+            finally:
+                core._coq_make(["Proofs/AstProgressEquiv.vo"])
+
+
+C20.regenerate = _regenerate
